@@ -75,6 +75,9 @@ def _is_generator(fn: ast.FunctionDef) -> bool:
 def _const_default(d: ast.AST) -> bool:
     if isinstance(d, ast.Constant):
         return True
+    if isinstance(d, ast.Lambda) and not any(isinstance(x, ast.Name) and isinstance(x.ctx, ast.Load) and x.id not in
+                                             {a.arg for a in d.args.args} and not hasattr(builtins, x.id) for x in ast.walk(d.body)):
+        return True  # a closed lambda is as good as a literal
     if isinstance(d, ast.UnaryOp) and isinstance(d.operand, ast.Constant):
         return True
     if isinstance(d, (ast.Tuple,)) and all(_const_default(x) for x in d.elts):
@@ -368,6 +371,26 @@ def _has_loop_control(body: List[ast.stmt]) -> bool:
     return walk(body)
 
 
+def _continue_to_break(stmts: List[ast.stmt]) -> List[ast.stmt]:
+    """own-level ``continue`` -> ``break`` (the statements are about to become the body of a one-shot loop)"""
+    out = []
+    for s in stmts:
+        if isinstance(s, ast.Continue):
+            out.append(ast.copy_location(ast.Break(), s))
+            continue
+        if isinstance(s, (ast.For, ast.While)):
+            s.orelse = _continue_to_break(s.orelse)
+        elif not isinstance(s, (ast.FunctionDef, ast.ClassDef)):
+            for fld in ("body", "orelse", "finalbody"):
+                sub = getattr(s, fld, None)
+                if isinstance(sub, list) and sub and isinstance(sub[0], ast.stmt):
+                    setattr(s, fld, _continue_to_break(sub))
+            for h in getattr(s, "handlers", []) or []:
+                h.body = _continue_to_break(h.body)
+        out.append(s)
+    return out
+
+
 def _yields_in_tail_position(fn: ast.FunctionDef) -> bool:
     """every ``yield`` of the generator is the last thing its innermost enclosing loop does in an iteration (and it has such
     a loop): a ``continue`` placed where the yield is then continues exactly that loop"""
@@ -609,10 +632,17 @@ class Inliner:
             assert loop is not None
             if loop.orelse or _own_level(loop.body, (ast.Break,)):
                 return None
+            wrap_body = False
             if _own_level(loop.body, (ast.Continue,)) and not _yields_in_tail_position(t.node):
-                return None  # `continue` means "resume after the yield": only the same thing when nothing follows the yield
+                # `continue` means "resume after the yield": the body goes into a one-shot loop and its `continue`s leave it
+                wrap_body = True
             body = rw.block(body, 0)
-            yt = _YieldTo(loop.target, loop.body)
+            lbody = loop.body
+            if wrap_body:
+                lbody = [ast.copy_location(ast.While(test=ast.Constant(value=True),
+                                                     body=_continue_to_break([copy.deepcopy(x) for x in loop.body]) + [ast.copy_location(ast.Break(), at)],
+                                                     orelse=[]), at)]
+            yt = _YieldTo(loop.target, lbody)
             new_body = []
             for s in body:
                 r = yt.visit(s)
@@ -1158,6 +1188,10 @@ def push_continuation(fn: ast.AST) -> int:
                 w, nxt = blk[i], blk[i + 1]
                 if not (isinstance(w, ast.While) and isinstance(w.test, ast.Constant) and w.test.value is True and not w.orelse):
                     continue
+                if isinstance(nxt, ast.If) and isinstance(nxt.test, ast.UnaryOp) and isinstance(nxt.test.op, ast.Not) \
+                        and isinstance(nxt.test.operand, ast.Name) and _is_temp(nxt.test.operand.id):
+                    # `if not t: A else: B` is `if t: B else: A`
+                    nxt.test, nxt.body, nxt.orelse = nxt.test.operand, (nxt.orelse or [ast.copy_location(ast.Pass(), nxt)]), nxt.body
                 if isinstance(nxt, ast.If) and isinstance(nxt.test, ast.Name) and _is_temp(nxt.test.id) and _push_if(fn, blk, i, w, nxt):
                     count += 1
                     done = True
@@ -1552,6 +1586,7 @@ def normalise(p: Program, vocab: Optional[Set[str]] = None) -> Tuple[Dict[str, a
                 break
         n_unrolled += unrolled + fused
         if len(inl.log) > before or unrolled or fused:
+            _beta(tgt)
             fold_class_constants(p, f, tgt)
             fold_constant_tests(tgt)
             fold_literal_indirections(tgt)
